@@ -89,7 +89,10 @@ class Air:
                     pkt.outcomes.append((r.name, out))
         if (self.promisc is not None and pkt.kind == "data" and not pkt.noack
                 and not any(o.startswith(("rx:", "dup:")) for _, o in pkt.outcomes)):
-            self.promisc.answer(self, pkt)
+            if self.fault is not None and self.fault(pkt, self.promisc):
+                pkt.outcomes.append((self.promisc.name, "fault"))  # the stub did not hear it
+            else:
+                self.promisc.answer(self, pkt)
         pkt.src._tx_air_done(pkt)
 
 
